@@ -211,7 +211,7 @@ func (dec *Decoder) nextField(advance int) {
 	}
 
 	field, wire, n := protowire.ConsumeTag(dec.buffer)
-	if n < 0 {
+	if n < 0 || !field.IsValid() {
 		dec.fail(0, "failed to parse") // TODO: better error message
 		return
 	}
